@@ -12,7 +12,7 @@ run() { # id name origin patch
   kind=$(grep -o "violation in run [0-9]*: kind=[a-z_]*" /verif/work/mut/last.log | head -1 | sed 's/.*kind=//')
   printf '%s\t%s\t%s\t%s\t%s\t%s\t%s\n' "$1" "$2" "$3" "$rc" "${run:--}" "${kind:--}" "$((e-s))" >> "$OUT"
 }
-for d in /verif/seeded/*/*/; do id=$(basename "$(dirname "$d")"); m=$(basename "$d"); run "$id" "$m" agent "$d/patch.diff"; done
+for d in /verif/seeded/*/*/; do id=$(basename "$(dirname "$d")"); m=$(basename "$d"); if [ -f "$d/OBSOLETE" ]; then printf '%s\t%s\tagent (obsolete, see its OBSOLETE file)\t-\t-\t-\t0\n' "$id" "$m" >> "$OUT"; continue; fi; run "$id" "$m" agent "$d/patch.diff"; done
 for f in /verif/mutants/*/*.diff; do id=$(basename "$(dirname "$f")"); m=$(basename "$f" .diff); run "$id" "$m" own "$f"; done
 # and the unchanged tree must stay silent on the scratch copy too
 for id in C01 C04 C08 C15 C19 C20; do run "$id" "(no change)" control none; done
